@@ -11,15 +11,21 @@
    {"op":"stat","pid":n,"comm":hex,"state":hex,"ppid":n,"start":n,"pre":[hex…],"post":[hex…]}
       renders the stat line (kernel format) and reads it back with both readers.
    {"op":"dyn","call":…,"pid":P,"mk":xrows,"lowest":n|null,"t0":xrows,"t1":xrows|null,
-    "steps":[[xrows,xrows,xrows],…]|null,"oneshot":null|"fresh"|xrows}      xrows = [[pid,ppid,start,"R"|"Z"|"X"],…]
-      the richer world of Model/C05Dyn.lean: "Z" = zombie, "X" = stat file unreadable (EACCES).
+    "steps":[[xrows,xrows,xrows],…]|null,"oneshot":null|"fresh"|xrows,"statmemo":xrows|absent}      xrows = [[pid,ppid,start,"R"|"Z"|"X"|"G"],…]
+      the richer world of Model/C05Dyn.lean: "Z" = zombie, "X" = stat file unreadable (EACCES), "G" = the
+      directory /proc/<pid> is still listed but its stat file is gone (the process is exiting).
       children: identity check + ppid_map() on `t0` (listing = every row of t0), look-ups on `t1`.
       parent/parents: the i-th `parent()` call sees steps[i] = [identity check, own stat read,
       Process(ppid)] (the last entry repeats; default t0 everywhere); pids() lists t0.
       oneshot: the call runs inside `with p.oneshot():`, after a first `p.ppid()` on the given table
       ("fresh": nothing called before).
-      `spec` is null where the specification is silent (an unreadable stat file on the path of
-      parent()/parents(), a process turning unreadable while children() walks, a oneshot cache hit).
+      oneshot stat memo (another stat-based method ran in the block before): the harness sends the table
+      the memo was filled on as the own-stat world of step 0 — `PStep.withStatMemo`.
+      `spec` is null where the specification is silent (which exception an unreadable stat file on the
+      path of parent()/parents() produces; a caller whose own stat file is unreadable while it is still
+      the same incarnation; a oneshot cache hit). An unreadable caller whose PID was in fact recycled must
+      get NoSuchProcess. When processes turn unreadable while children() walks, `spec` is the exact value
+      and `alt_denied` lists the PIDs for which AccessDenied(pid) may escape instead (C05_children_outcomes).
 -/
 import PsutilModel.Base.Proto
 import PsutilModel.Model.C05Gen
@@ -153,13 +159,48 @@ def parseXRow (j : Json) : R XRow := do
 
 def parseXTable (j : Json) : R XTable := asList parseXRow j
 
-def parseStep (j : Json) : R PStep := do
+/-- a listed PID whose stat file is already gone (the process exited after `pids()` saw its directory): state
+    "G". It stays in the LISTING and is absent from the WORLD. → (listing, table without the G rows) -/
+def parseListed (j : Json) : R (List Nat × XTable) := do
+  match j.getArr? with
+  | .ok rows => do
+    let mut L : List Nat := []
+    let mut T : XTable := []
+    for r in rows.toList do
+      match r.getArr? with
+      | .ok #[a, b, c, d] =>
+        let a ← asNat a
+        let st ← asStr d
+        L := L ++ [a]
+        if st == "G" then
+          let _ ← asNat b
+          let _ ← asNat c
+          pure ()
+        else
+          let x ← parseXRow r
+          T := T ++ [x]
+      | _ => throw "xrow must be [pid, ppid, start, state]"
+    pure (L, T)
+  | _ => .error "table must be an array"
+
+/-- only the world of a table (its "G" rows are absent from it) -/
+def parseWorldT (j : Json) : R XTable := do
+  let r ← parseListed j
+  pure r.2
+
+/-- what the identity check would read if every stat file could be opened: the table knows the start time
+    of the process that owns the PID even when its stat file is unreadable -/
+def truthRead (T : XTable) : XWorld :=
+  XTable.read (T.map fun r => { r with st := (match r.st with | .denied => .run | s => s) })
+
+/-- a step as the code sees it, and the same step with the identity check reading the truth -/
+def parseStep (j : Json) : R (PStep × PStep) := do
   match j.getArr? with
   | .ok #[a, b, c] => do
-    let a ← parseXTable a
-    let b ← parseXTable b
-    let c ← parseXTable c
-    pure ⟨a.pids, a.read, b.read, c.read⟩
+    let (la, a) ← parseListed a
+    let (_, b) ← parseListed b
+    let (_, c) ← parseListed c
+    pure (⟨la, a.read, b.read, c.read⟩, ⟨la, truthRead a, b.read, c.read⟩)
   | _ => .error "step must be [ti, to, tp]"
 
 def jXOut {α : Type} (f : α → List (String × Json)) : XOut α → Json
@@ -167,34 +208,22 @@ def jXOut {α : Type} (f : α → List (String × Json)) : XOut α → Json
   | .nsp p => jExc "NoSuchProcess" (some p)
   | .denied p => jExc "AccessDenied" (some p)
   | .permissionError => jExc "PermissionError" none
+  | .fileNotFound => jExc "FileNotFoundError" none
   | .indexError => jExc "IndexError" none
   | .diverged => jObj [("kind", "diverged")]
-
-def isPlain (T : XTable) : Bool := T.all fun r => r.st != .denied
-def toPlainT (T : XTable) : Table := T.map fun r => ⟨r.pid, r.ppid, r.start⟩
-
-def xoutEq {α : Type} [BEq α] : XOut α → XOut α → Bool
-  | .ok a, .ok b => a == b
-  | .nsp a, .nsp b => a == b
-  | .denied a, .denied b => a == b
-  | .permissionError, .permissionError => true
-  | .indexError, .indexError => true
-  | .diverged, .diverged => true
-  | _, _ => false
-
-instance : BEq Row := ⟨fun a b => a.pid == b.pid && a.ppid == b.ppid && a.start == b.start⟩
 
 def handleDyn (j : Json) : R Json := do
   let call ← strF j "call"
   let pid ← natF j "pid"
-  let mk ← field j "mk" >>= parseXTable
+  let mk ← field j "mk" >>= parseWorldT
   let lowest ← optF asNat j "lowest"
-  let t0 ← field j "t0" >>= parseXTable
-  let t1o ← optF parseXTable j "t1"
+  let (l0, t0) ← field j "t0" >>= parseListed
+  let t1o ← optF parseWorldT j "t1"
   let t1 := t1o.getD t0
   let stepsO ← optF (asList parseStep) j "steps"
   let steps := stepsO.getD []
   let osJ ← field j "oneshot"
+  let memoO ← optF parseWorldT j "statmemo"
   let me0 ← (match mk.read pid with
     | .ok _ s => pure (⟨pid, s, false, false⟩ : Caller)
     | _ => .error s!"pid {pid} is not readable in mk")
@@ -203,23 +232,31 @@ def handleDyn (j : Json) : R Json := do
     | Json.null => pure (me0, none)
     | Json.str "fresh" => pure (me0, some none)
     | other => do
-      let tp ← parseXTable other
+      let tp ← parseWorldT other
       let r := ppidX cfg (stepOfX tp) me0 (some none)
       pure (r.1, r.2.1))
   let cached : Bool := match os with | some (some _) => true | _ => false
   let ps : Ps := ⟨lowest⟩
-  let dflt : PStep := match steps.getLast? with
+  let dflt : PStep × PStep := match steps.getLast? with
     | some s => s
-    | none => stepOfX t0
+    | none => ({ stepOfX t0 with listing := l0 }, { stepOfX t0 with listing := l0, wi := truthRead t0 })
+  -- inside oneshot(), another stat-based method filled the memoised stat file on table `statmemo`
+  let memo (s : PStep) : PStep := match memoO with
+    | some tm => s.withStatMemo tm.read
+    | none => s
   let W : Nat → PStep := fun i =>
-    let s := steps.getD i dflt
-    if i == 0 then { s with listing := t0.pids } else s
+    let s := (steps.getD i dflt).1
+    if i == 0 then memo { s with listing := l0 } else s
+  -- the same worlds, except that every identity check reads the truth (an unreadable stat file does not
+  -- hide whether the PID still belongs to the same incarnation)
+  let Wt : Nat → PStep := fun i =>
+    let s := (steps.getD i dflt).2
+    if i == 0 then memo { s with listing := l0 } else s
   let flagsDead : Bool := me.gone || me.reused
   let nspJ := jExc "NoSuchProcess" (some pid)
-  let static : Bool := t1o.isNone && stepsO.isNone && osJ == Json.null && isPlain t0
   if call == "children" || call == "children_rec" then
     let recursive := call == "children_rec"
-    let L := t0.pids
+    let L := l0
     let w0 := t0.read
     let wl := t1.read
     let m := (childrenX xcfg me recursive L w0 wl).2
@@ -229,24 +266,27 @@ def handleDyn (j : Json) : R Json := do
       | .ok _ s => s == me.ctime
       | _ => false
     let ownDenied : Bool := w0 pid == .denied
+    -- an unreadable caller: the table knows whether the PID still belongs to the same incarnation
+    let ownRecycled : Bool := match List.find? (fun r => r.pid == pid) t0 with
+      | some r => r.start != me.ctime
+      | none => false
     let stays : Bool := links.all fun e => wl e.1 != .denied
+    let altDenied : List Nat := (links.filter fun e => wl e.1 == .denied).map (·.1)
     let sat := Spec.descSat links look me.ctime pid
     let isClosed := Spec.closed links look me.ctime pid sat
     let sp : Json := if flagsDead then nspJ
+      else if ownDenied && ownRecycled then nspJ
       else if ownDenied then Json.null
       else if !alive then nspJ
-      else if !stays then Json.null
       else if recursive then jObj (("kind", "ok") :: jProcs look (Spec.descList links look me.ctime pid))
       else jObj (("kind", "ok") :: jProcs look (Spec.childList links look me.ctime pid))
-    let oldOk : Bool := !static ||
-      xoutEq m (XOut.ofOut (children cfg me recursive (lookOf (toPlainT t0)) (ppidMap (toPlainT t0)) (lookOf (toPlainT t0))).2)
     return jObj [("model", jXOut (jProcs look) m), ("spec", sp), ("closed", Json.bool (isClosed || !recursive)),
-      ("old_agrees", Json.bool oldOk), ("cached", Json.bool cached)]
+      ("alt_denied", jList jNat (if stays then [] else sortNat altDenied)), ("cached", Json.bool cached)]
   else if call == "parent" || call == "parents" then
     match lowestPidX ps (W 0).listing with
     | (_, none) =>
       return jObj [("model", jExc "IndexError" none), ("spec", Json.null), ("closed", Json.bool true),
-        ("old_agrees", Json.bool true), ("cached", Json.bool cached)]
+        ("cached", Json.bool cached)]
     | (_, some low) =>
       let silent (o : XOut (List Row)) : Bool := match o with
         | .denied _ => true
@@ -254,29 +294,33 @@ def handleDyn (j : Json) : R Json := do
       if call == "parent" then
         let m := (parentX cfg ps (W 0) me os).2.2.2
         let spv := Spec.parentOfW (W 0) low pid me.ctime
+        -- silent where an identity check cannot tell (own stat unreadable, same incarnation underneath)
+        let idHidden : Bool := spv != Spec.parentOfW (Wt 0) low pid me.ctime
         let sp : Json := if cached then Json.null
           else if pid == low then jObj (("kind", "ok") :: jParent none)
           else if flagsDead then nspJ
+          else if idHidden then Json.null
           else match spv with
             | .none => jObj (("kind", "ok") :: jParent none)
             | .some q => jObj (("kind", "ok") :: jParent (some q))
             | .nsp p => jExc "NoSuchProcess" (some p)
             | .denied _ => Json.null
-        let oldOk : Bool := !static || xoutEq m (XOut.ofOut (parent cfg ps (toPlainT t0) me).2.2)
         return jObj [("model", jXOut jParent m), ("spec", sp), ("closed", Json.bool true),
-          ("old_agrees", Json.bool oldOk), ("cached", Json.bool cached)]
+          ("cached", Json.bool cached)]
       else
         let fuel := 4096 + 2
         let m := (parentsX cfg fuel ps W me os).2
         let spv := Spec.chainDyn W low fuel 0 [pid] pid me.ctime []
+        let spt := Spec.chainDyn Wt low fuel 0 [pid] pid me.ctime []
+        let idHidden : Bool := (jXOut jChain spv).compress != (jXOut jChain spt).compress
         let sp : Json := if cached then Json.null
           else if pid == low then jObj (("kind", "ok") :: jChain [])
           else if flagsDead then nspJ
+          else if idHidden then Json.null
           else if silent spv then Json.null
           else jXOut jChain spv
-        let oldOk : Bool := !static || xoutEq m (XOut.ofOut (parents cfg ps (toPlainT t0) me).2)
         return jObj [("model", jXOut jChain m), ("spec", sp), ("closed", Json.bool true),
-          ("old_agrees", Json.bool oldOk), ("cached", Json.bool cached)]
+          ("cached", Json.bool cached)]
   else .error s!"unknown call {call}"
 
 def handle (_ : Unit) (j : Json) : R (Unit × Json) := do
